@@ -93,7 +93,7 @@ Definition tree_okb (c : cfg) (Q : queues) : bool :=
    (flag on) no allocated pods *)
 Definition delete_guardb (c : cfg) (Q : queues) (r : req) : bool :=
   match r with
-  | Delete n =>
+  | Delete n | DeleteFin n =>
     negb (bool_decide (n = root)) && negb (bool_decide (n = default_q)) &&
     match Q !! n with
     | None => false
@@ -143,7 +143,7 @@ Definition law_gate c Q0 (rs : list req) (vs : list Z) : bool := depth_okb c && 
    queue whose status shows allocated pods, whatever the configuration *)
 Definition delete_allocb (Q : queues) (r : req) : bool :=
   match r with
-  | Delete n => match Q !! n with Some s => bool_decide (qalloc s = 0) | None => true end
+  | Delete n | DeleteFin n => match Q !! n with Some s => bool_decide (qalloc s = 0) | None => true end
   | _ => true
   end.
 Definition law_delete_alloc (c : cfg) Q0 := law_gated true (fun _ => true) delete_allocb Q0.
